@@ -3,7 +3,8 @@
    names_equal (fix: commit), dispatching through Gen/RdataTables.v; [equals_prefix] is
    the code before the repair; [spec_equals]/[nodup_by] are Spec/RdataEqS.v. *)
 From QV Require Import Base.ListX Model.NameWire Model.RdataM Model.RdataSetM Spec.NameRepr
-  Spec.RdataFormatS Spec.RdataEqS Proofs.RdNameEqP Proofs.RdataEqSP Proofs.RdataEqP Proofs.RdataSetP.
+  Spec.RdataFormatS Spec.RdataEqS Proofs.RdNameEqP Proofs.RdataEqSP Proofs.RdataEqP Proofs.RdataSetP
+  Proofs.RdataEqFullP Proofs.RdataNodupP.
 
 (* The characterisation (octet equality, except that the names of the pre-RFC 3597
    name-bearing types compare label-wise without ASCII case when both RDATA are valid;
@@ -37,46 +38,68 @@ Theorem c19_name_eq : forall la lb, valid_name la -> valid_name lb ->
   name_eq (name_of la) (name_of lb) = Ok (labels_ci_eqb la lb).
 Proof. exact name_eq_spec. Qed.
 
-(* PARTIAL (see docs/C19.md): the model equals the characterisation — and therefore never
-   panics and obeys the three laws — for every (class, type) except SOA, MINFO, MX, CH A and
-   IN SRV, i.e. for NS MD MF CNAME MB MG MR PTR (where the defect was) and all bitwise types. *)
-Theorem c19_covered_partial : forall c t,
-  char_proved (lookup equals_arms equals_default c t) =
-  negb (one_of t [6; 14; 15]%N || ((c =? 3)%N && (t =? 1)%N) || ((c =? 1)%N && (t =? 33)%N)).
-Proof. exact covered_types. Qed.
-
-Theorem c19_char_partial : forall c t a b, wf_bytes a -> wf_bytes b ->
-  char_proved (lookup equals_arms equals_default c t) = true ->
+(* The model of Rdata::equals IS the characterisation, for EVERY class and type and every
+   pair of octet strings: the eight single-name types (names_equal, where the defect was),
+   SOA and MINFO (test_n_name_fields with n = 2), MX and IN SRV (fixed prefix, then a name),
+   CH A (a name, then 2 octets) and every octet-wise type.  In particular equals never
+   panics (no slice, subtraction or label_at can fail) and always returns a boolean. *)
+Theorem c19_char : forall c t a b, wf_bytes a -> wf_bytes b ->
   equals c t a b = Ok (spec_equals c t a b).
-Proof. exact equals_char_partial. Qed.
+Proof. exact equals_char. Qed.
 
-Theorem c19_laws_partial : forall c t,
-  char_proved (lookup equals_arms equals_default c t) = true ->
+Theorem c19_total : forall c t a b, wf_bytes a -> wf_bytes b -> exists v, equals c t a b = Ok v.
+Proof. exact equals_total. Qed.
+
+(* Reflexive, symmetric, transitive ON THE MODEL, for every class and type. *)
+Theorem c19_laws : forall c t,
   (forall a, wf_bytes a -> equals c t a a = Ok true) /\
   (forall a b, wf_bytes a -> wf_bytes b -> equals c t a b = equals c t b a) /\
   (forall a b d, wf_bytes a -> wf_bytes b -> wf_bytes d ->
      equals c t a b = Ok true -> equals c t b d = Ok true -> equals c t a d = Ok true).
-Proof. exact equals_laws_partial. Qed.
+Proof. exact equals_laws. Qed.
 
-(* RdataSetOwned::from_iter, for either byte order of the length prefix: whenever equals
-   acts on the inputs as a total boolean function eqf, the set is the encoding of
-   nodup_by eqf (first member of each class, insertion order) and iterating it returns
-   exactly that list; None iff there is no input. *)
-Theorem c19_set : forall c t eqf all,
-  (forall x y, In x all -> In y all -> equals c t x y = Ok (eqf x y)) ->
-  forall be rs, Forall small rs -> incl rs all ->
+(* Octet-wise unless the type is one of the RFC's case-insensitive ones AND both RDATA are
+   valid for its format: the fall-back of the property statement. *)
+Theorem c19_octetwise : forall c t a b, wf_bytes a -> wf_bytes b ->
+  ci_type c t && spec_valid c t a && spec_valid c t b = false ->
+  equals c t a b = Ok (octets_eqb a b).
+Proof. exact equals_octetwise. Qed.
+
+(* RdataSetOwned::from_iter, for either byte order of the length prefix and every class and
+   type, with no hypothesis on equals: the set is the encoding of nodup_by spec_equals (first
+   member of each equality class, insertion order), iterating it returns exactly that
+   list, and it is None iff there is no input. *)
+Theorem c19_set : forall c t be rs, Forall small rs -> Forall wf_bytes rs ->
   from_iter be c t rs =
-    Ok (match rs with [] => None | _ => Some (inner_of be (nodup_by eqf [] rs)) end) /\
-  (forall inner, from_iter be c t rs = Ok (Some inner) -> set_iter be inner = nodup_by eqf [] rs).
-Proof. exact from_iter_spec. Qed.
+    Ok (match rs with [] => None | _ => Some (inner_of be (nodup_by (spec_equals c t) [] rs)) end) /\
+  (forall inner, from_iter be c t rs = Ok (Some inner) ->
+     set_iter be inner = nodup_by (spec_equals c t) [] rs).
+Proof. exact set_full. Qed.
 
-(* ... in particular with eqf = the characterisation, for the covered (class, type)s. *)
-Theorem c19_set_partial : forall c t be rs,
-  char_proved (lookup equals_arms equals_default c t) = true ->
-  Forall small rs -> Forall wf_bytes rs ->
-  forall inner, from_iter be c t rs = Ok (Some inner) ->
-  set_iter be inner = nodup_by (spec_equals c t) [] rs.
-Proof. exact set_partial. Qed.
+(* What "nodup_by spec_equals" means (so c19_set says what the property says): what an RRset
+   keeps is a subsequence of the inputs (insertion order, nothing else), its members are pairwise
+   unequal, every input has an equal member in it, and each kept member is the FIRST input of
+   its equality class. *)
+Theorem c19_set_meaning : forall c t l,
+  let k := nodup_by (spec_equals c t) [] l in
+  subseq k l /\ pairwise_ne (spec_equals c t) k /\
+  (forall x, In x l -> exists y, In y k /\ spec_equals c t x y = true) /\
+  (forall y, In y k -> exists pre post, l = pre ++ y :: post /\
+                       forall z, In z pre -> spec_equals c t y z = false).
+Proof.
+  intros c t l.
+  exact (nodup_by_meaning (spec_equals c t) (spec_equals_refl c t)
+           (spec_equals_trans c t) l).
+Qed.
+
+(* RdataSetOwned::insert (src/rr/rdata_set.rs:135-146) on a set holding [kept]: the RDATA is
+   appended, and `true` returned, iff no member equals it; iteration order is insertion order. *)
+Theorem c19_insert : forall c t be kept r inner' flag,
+  Forall small kept -> Forall wf_bytes kept -> small r -> wf_bytes r ->
+  set_insert be c t (inner_of be kept) r = Ok (inner', flag) ->
+  set_iter be inner' = (if flag then kept ++ [r] else kept) /\
+  flag = negb (existsb (fun y => spec_equals c t r y) kept).
+Proof. exact set_insert_iter. Qed.
 
 (* Regression witness: the code before the fix: commit is not symmetric. *)
 Theorem c19_sym_refuted_prefix :
@@ -88,7 +111,6 @@ Proof. exact equals_prefix_asym. Qed.
    treats the junk-suffixed name as different in both orders, and the set keeps the first. *)
 Example c19_example :
   let a := [1; 97; 0]%N in let A := [1; 65; 0]%N in let j := [1; 97; 0; 9]%N in
-  char_proved (lookup equals_arms equals_default 1 5) = true /\
   equals 1 5 a A = Ok true /\ spec_equals 1 5 a A = true /\
   equals 1 5 a j = Ok false /\ equals 1 5 j a = Ok false /\
   (exists inner, from_iter false 1 5 [a; A; j; a] = Ok (Some inner) /\ set_iter false inner = [a; j]).
@@ -97,14 +119,31 @@ Proof.
   eexists. split; vm_compute; reflexivity.
 Qed.
 
+(* Non-vacuity for the five multi-field handlers: SOA, MX, IN SRV, CH A, MINFO with names that
+   differ only in letter case are equal; one octet of junk makes both RDATA invalid and the
+   comparison octet-wise (unequal); a different fixed field makes them unequal. *)
+Example c19_example_multi :
+  let z20 := repeat 0%N 20 in
+  equals 1 6 ([1;97;0; 1;98;0] ++ z20)%N ([1;65;0; 1;66;0] ++ z20)%N = Ok true /\
+  equals 1 6 ([1;97;0; 1;98;0] ++ z20 ++ [0])%N ([1;65;0; 1;66;0] ++ z20 ++ [0])%N = Ok false /\
+  equals 1 15 [0;10; 1;97;0]%N [0;10; 1;65;0]%N = Ok true /\
+  equals 1 15 [0;10; 1;97;0]%N [0;11; 1;65;0]%N = Ok false /\
+  equals 1 33 [0;1;0;2;0;3; 1;97;0]%N [0;1;0;2;0;3; 1;65;0]%N = Ok true /\
+  equals 3 1 [1;97;0; 0;1]%N [1;65;0; 0;1]%N = Ok true /\
+  equals 1 14 [1;97;0; 1;98;0]%N [1;65;0; 1;66;0]%N = Ok true /\
+  equals 1 14 [1;97;0; 1;98;0; 9]%N [1;65;0; 1;66;0; 9]%N = Ok false.
+Proof. cbv zeta. repeat split; vm_compute; reflexivity. Qed.
+
 Print Assumptions c19_spec_refl.
 Print Assumptions c19_spec_sym.
 Print Assumptions c19_spec_trans.
 Print Assumptions c19_dispatch.
 Print Assumptions c19_name_eq.
-Print Assumptions c19_covered_partial.
-Print Assumptions c19_char_partial.
-Print Assumptions c19_laws_partial.
+Print Assumptions c19_char.
+Print Assumptions c19_total.
+Print Assumptions c19_laws.
+Print Assumptions c19_octetwise.
 Print Assumptions c19_set.
-Print Assumptions c19_set_partial.
+Print Assumptions c19_set_meaning.
+Print Assumptions c19_insert.
 Print Assumptions c19_sym_refuted_prefix.
